@@ -109,6 +109,7 @@ Print Assumptions C09_exiting_frames_in_series.
    being exited follow in the main series. *)
 Theorem C09_exiting_stack_children : forall n cbs oid a nm code ws cur,
   seq_modelled cbs = true -> seq_nof10 cbs = true ->
+  raises (S (S n)) (MStack cbs) = false ->   (* its unfolding does not fail; met by P_ExitStack.ex_mid_exit_hyps *)
   exists cs kids rest,
     series (S (S (S n))) (Frm code ws (TExitS (Wth oid a nm (MStack cbs)) cur))
       = FOut code (cs ++ [COut oid a true None kids KTop]) :: rest /\
@@ -140,3 +141,31 @@ Theorem C09_history_stateless : forall fuel pre f post,
   nth_error (extract_seq fuel (pre ++ Some f :: post)) (length pre) = Some (HOk (series fuel f)).
 Proof. exact history_stateless. Qed.
 Print Assumptions C09_history_stateless.
+
+(* Contained faults (extract_iter fills each context inside its own try/except): in every frame,
+   the j-th with-block is unfolded from that with-block alone; with-blocks whose unfolding fails
+   stay bare and do not disturb the others (example: P_ExitStack.ex_faulty_contained). *)
+Theorem C09_fault_contained : forall n code ws,
+  exists cs, series (S n) (Frm code ws TStop) = [FOut code cs] /\ length cs = length ws /\
+    forall j oid a nm m, nth_error ws j = Some (Wth oid a nm m) ->
+      nth_error cs j = Some (if raises n m then COut oid a false None [] KTop
+                             else fill n false (if nm then RName else RUnderscore) [] KTop (Wth oid a nm m)).
+Proof. exact fault_contained. Qed.
+Print Assumptions C09_fault_contained.
+
+(* ... and which unfoldings fail is what the property-level reading says: exactly the exit stacks
+   holding (transitively through registered stacks) a manager or bound-method receiver whose repr
+   fails; functions, callbacks and generator-based managers never make it fail. *)
+Theorem C09_raises : forall fuel m,
+  depth_mgr m <= fuel -> modelled_mgr m = true -> nof10_mgr m = true -> raises fuel m = spec_raises m.
+Proof. exact raises_correct. Qed.
+Print Assumptions C09_raises.
+
+(* A function registered with push / push_async_exit is described as such whatever it looks like
+   (functools.wraps closure over *args/**kwds, a function called _exit_wrapper, ...). *)
+Theorem C09_lookalike_is_push : forall lk,
+  c_meth (classify (cl_attrs (KPushFn lk) false false)) = MPush /\
+  c_meth (classify (cl_attrs (KPushAFn lk) false false)) = MPushA /\
+  c_arg (classify (cl_attrs (KPushFn lk) false false)) = AFuncname.
+Proof. exact lookalike_is_push. Qed.
+Print Assumptions C09_lookalike_is_push.
